@@ -21,6 +21,7 @@ import collections
 import json
 import os
 import random
+import shutil
 
 import lib
 
@@ -450,6 +451,10 @@ def run(ctx):
     rng = random.Random(ctx.seed)
     quick = ctx.quick()
     binary = ctx.build("planx")
+    # other agents clean /verif/.build-* while testing their mutants: run from a private copy
+    private = ctx.path("planx-bin")
+    shutil.copy(binary, private)
+    binary = private
     if ctx.replay_in:
         run_replay(ctx, binary)
         return
